@@ -20,7 +20,8 @@ CHECKS = {
             'failing ops, listing-order permutations, values above one MiB, keys with input files / long / with '
             'separators) over every constructible archive configuration, each step compared with a plain dict for the '
             'target and all sibling archives (30% of runs read the full contents back only every few steps, so that '
-            'the harness does not hide state one operation leaves for the next)',
+            'the harness does not hide state one operation leaves for the next); archives behind symlinks, under odd '
+            'names, under relative names in two working directories, siblings of the same name in other directories',
             'samples histories, not all of them; key/value domains limited to what each encoding represents '
             'losslessly; sqlalchemy/hdf5 backends not installed',
             TECH % ('operation/clock/listing-order schedules', 'an executable dict model after every step')),
@@ -101,7 +102,8 @@ CHECKS['C14'] = ('racesim', 'exploration', '4',
     'preceding write, no never-stored key appears, stable keys are not missed, a single-file reader sees one complete '
     'dictionary that existed, a fresh handle sees every acknowledged write; sqlite busy-waits run on virtual time and a '
     'busy timeout is accepted only while another client has an operation in flight (finished clients stay alive, idle); '
-    'clients read clocks that are 0 / 90 / +-3600 s apart',
+    'clients read clocks that are 0 / 90 / +-3600 s apart; in 15% of dir/sqlite runs one writing client is stalled right '
+    'before its commit / final rename until the others have finished or given up; 12% of archives live behind a symlink',
     'one sampled schedule per scenario (not all interleavings); interleaving granularity is the intercepted Python-level '
     'call (C-level sequences inside sqlite / importlib are atomic); file archive limited to one writer plus readers/openers',
     'deterministic simulation with fault injection: seeded scheduler over real client processes parked at every intercepted '
